@@ -160,7 +160,9 @@ def run(ctx, rep):
     rows = H.serialised_types(prog, sl, lambda v: walk_own(prog, v))
     per_fn, roots2, user = {}, [], 0
     for sink, wf_, ty in rows:
-        sfn = sink.fn.path
+        # the triage is about where the serialised text goes (fd 3), not about which function spells the call: a
+        # private phase helper / closure that only the triaged function can reach is that function's code
+        sfn = H.sink_owner(prog, sink.fn, SINK_TRIAGED) or sink.fn.path
         if sfn in SINK_TRIAGED:
             per_fn.setdefault(('triaged', sfn), [sink, []])
             continue
